@@ -3,6 +3,8 @@ package props
 import (
 	"encoding/json"
 	"fmt"
+	gqlparser "github.com/vektah/gqlparser/v2"
+	"github.com/vektah/gqlparser/v2/formatter"
 	"sort"
 	"strings"
 	"time"
@@ -117,6 +119,13 @@ func runC08(c *explore.Ctx) {
 		forEachProfileDoc(c, s, "", func(d kitDoc) { c08Doc(c, s, d) })
 		s.WallS = time.Since(t0).Seconds()
 	}
+	s = c.Sub("schema-switch", "every profile document against S1, parsed once and validated against S1 and then against S1 with every argument / input-field default removed (a later version of the schema), and in the other order",
+		"the second validation reports exactly what a freshly parsed copy gets from that schema (nothing the first validation left on the tree decides the second verdict)", "documents the second schema rejects")
+	if s != nil {
+		t0 := time.Now()
+		forEachProfileDoc(c, s, "", func(d kitDoc) { c08Switch(c, s, d) })
+		s.WallS = time.Since(t0).Seconds()
+	}
 	n := c.Pick(7, 12)
 	s = c.Sub("type-blind", fmt.Sprintf("every type-blind document: sentences of ≤ %d tokens of the executable grammar × every assignment of %d names to ≤ 4 name positions", n, len(kitVocab)),
 		"as above", "documents both sides accept")
@@ -124,6 +133,84 @@ func runC08(c *explore.Ctx) {
 		t0 := time.Now()
 		forEachBlindDoc(c, s, n, func(d kitDoc) { c08Doc(c, s, d) })
 		s.WallS = time.Since(t0).Seconds()
+	}
+}
+
+// c08StrippedSchema: schema S1 with every default value of an argument or input field removed (built from the parsed
+// type-system document, printed and loaded again) — a later version of the same schema.
+var c08Stripped *ast.Schema
+
+func c08StrippedSchema() *ast.Schema {
+	if c08Stripped == nil {
+		sd, err := parser.ParseSchema(&ast.Source{Name: "s1.graphql", Input: gen.ValidSchemas[0]})
+		if err != nil {
+			panic(err)
+		}
+		for _, d := range sd.Definitions {
+			for _, f := range d.Fields {
+				f.DefaultValue = nil
+				for _, a := range f.Arguments {
+					a.DefaultValue = nil
+				}
+			}
+		}
+		for _, d := range sd.Directives {
+			for _, a := range d.Arguments {
+				a.DefaultValue = nil
+			}
+		}
+		var b strings.Builder
+		formatter.NewFormatter(&b).FormatSchemaDocument(sd)
+		sch, lerr := gqlparser.LoadSchema(&ast.Source{Name: "s1-stripped.graphql", Input: b.String()})
+		if lerr != nil {
+			panic("C08: stripped schema does not load: " + lerr.Error())
+		}
+		c08Stripped = sch
+	}
+	return c08Stripped
+}
+
+// c08Switch: one parsed document validated against S1 and then against the stripped S1 (and the other way round):
+// the second verdict is the verdict a freshly parsed document gets from that schema.
+func c08Switch(c *explore.Ctx, s *explore.SubStats, d kitDoc) {
+	if d.Schema != 0 {
+		return
+	}
+	explore.Crumb(s.Name, d.Doc)
+	schemas := []*ast.Schema{kitSchema(0), c08StrippedSchema()}
+	names := []string{"S1", "S1 without argument / input-field defaults"}
+	for first := 0; first < 2; first++ {
+		doc, perr := parser.ParseQuery(&ast.Source{Name: "q.graphql", Input: d.Doc})
+		fresh, _ := parser.ParseQuery(&ast.Source{Name: "q.graphql", Input: d.Doc})
+		if perr != nil {
+			s.Skipped++
+			return
+		}
+		s.Executions++
+		s.Transitions += 3
+		var got, want string
+		r := guarded(3*c02DocBudget, 5000, func() {
+			validator.Validate(schemas[first], doc)
+			got = errSig(validator.Validate(schemas[1-first], doc))
+			want = errSig(validator.Validate(schemas[1-first], fresh))
+		})
+		if r.Panicked {
+			c.Report(s, explore.Violation{Key: "panic site=" + r.Site, Input: explore.J(d), Rendered: d.Doc, Detail: r.PanicVal})
+			return
+		}
+		s.Validated++
+		if want != "" {
+			s.Nontrivial++
+		}
+		s.Outcome(fmt.Sprintf("second-verdict-valid=%v", want == ""))
+		if got != want {
+			key := "valid/schema-switch false-accept"
+			if got != "" {
+				key = "valid/schema-switch " + firstRule(want, got)
+			}
+			c.Report(s, explore.Violation{Key: key, Input: explore.J(d), Rendered: d.Doc, Detail: "a parsed document validated against " + names[first] + " and then against " + names[1-first] + " gets other errors from the second schema than a freshly parsed copy", Expected: want, Observed: got})
+			return
+		}
 	}
 }
 
